@@ -31,8 +31,13 @@ class Universe:
             return xo.Int64 if d is None else xo.Field(xo.Int64, default=d)
 
         leaf_fields = [("a", "n", None), ("v", "n", None)]
-        Leaf = type(f"HLeaf{uid}", (xo.HybridClass,), {"_xofields": {"a": num(0, "a"), "v": num(0, "v"), "arr": xo.Float64[:]}})
-        self.spec.append((leaf_fields, {}))
+        # two dynamically sized fields: values of one total size can split it differently (cached offsets of a view go stale)
+        d = {"_xofields": {"a": num(0, "a"), "v": num(0, "v"), "arr": xo.Float64[:], "brr": xo.Int64[:]}}
+        ren0 = {"v": "vee"} if r.random() < 0.5 else {}
+        if ren0:
+            d["_rename"] = ren0
+        Leaf = type(f"HLeaf{uid}", (xo.HybridClass,), d)
+        self.spec.append((leaf_fields, ren0))
         self.classes.append(Leaf)
         k1 = r.choice(["N", "R"])
         k1b = r.choice(["N", "R", None])
@@ -52,6 +57,8 @@ class Universe:
         k2 = r.choice(["N", "R"])
         k3 = r.choice(["N", "R"])
         ren2 = {"s": "ess"} if r.random() < 0.5 else {}
+        if r.random() < 0.5:
+            ren2["mid"] = "middle"
         f = {"s": num(2, "s"), "mid": Mid if k2 == "N" else xo.Ref(Mid), "leaf": Leaf if k3 == "N" else xo.Ref(Leaf)}
         d = {"_xofields": f}
         if ren2:
@@ -59,6 +66,15 @@ class Universe:
         Top = type(f"HTop{uid}", (xo.HybridClass,), d)
         self.spec.append(([("s", "n", None), ("mid", k2, 1), ("leaf", k3, 0)], ren2))
         self.classes.append(Top)
+        # class 3: a class DERIVED from Leaf that declares its fields again with its own defaults (and its own renaming)
+        d = {"_xofields": {"a": num(3, "a"), "v": num(3, "v"), "arr": xo.Float64[:], "brr": xo.Int64[:]}}
+        ren3 = {"a": "aye"} if r.random() < 0.5 else {}
+        if ren3:
+            d["_rename"] = ren3
+        LeafD = type(f"HLeafD{uid}", (Leaf,), d)
+        self.spec.append((leaf_fields, ren3))
+        self.classes.append(LeafD)
+        self.leaflike = (0, 3)
 
     def line(self):
         out = []
@@ -79,7 +95,7 @@ class Universe:
 
     def cls_index(self, obj):
         for i, c in enumerate(self.classes):
-            if isinstance(obj, c):
+            if type(obj) is c:
                 return i
         return None
 
@@ -92,8 +108,9 @@ def plain_default(U, ci):
             out[n] = 0
         elif k == "N":
             out[n] = plain_default(U, c)
-    if ci == 0:
+    if ci in U.leaflike:
         out["arr"] = [0.0, 0.0]
+        out["brr"] = [0, 0]
     return out
 
 
@@ -111,6 +128,8 @@ class Case:
             self.ops.append(f"buf {ci}")
             self.exp.append(f"buf {len(self.bufs) - 1}")
         self.handles = collections.OrderedDict()      # name -> python object (hybrid instance or bare xobject)
+        self.stale = set()
+        self.last_target = None
         self.nh = 0
         self.ctx = {"component": "hyb", "universe": self.U.line(), "ops": self.ops}
 
@@ -138,12 +157,16 @@ class Case:
             return f"inst cls={self.U.cls_index(obj)} buf={self.loc(obj)[0]} same={self.same(obj)} movable={'true' if obj._movable else 'false'} py={py}"
         return f"bare buf={self.loc(obj)[0]} same={self.same(obj)}"
 
+    def num_value(self):
+        """a number, often one of the values declared as a default somewhere (0, 5, -3)"""
+        return self.r.choice([0, 5, -3]) if self.r.random() < 0.35 else self.r.randint(-1000, 1000)
+
     def new_name(self):
         self.nh += 1
         return f"H{self.nh}"
 
     def insts(self, ci=None):
-        return [(n, o) for n, o in self.handles.items() if hasattr(o, "_xobject") and (ci is None or self.U.cls_index(o) == ci)]
+        return [(n, o) for n, o in self.handles.items() if hasattr(o, "_xobject") and n not in self.stale and (ci is None or self.U.cls_index(o) == ci)]
 
     def pick(self):
         """an instance handle and one of its fields, biased to compound classes and compound fields"""
@@ -161,13 +184,13 @@ class Case:
     # ------------------------------------------------------------------ operations
     def op_new(self, ci=None):
         r, U = self.r, self.U
-        ci = r.choice([0, 1, 1, 2, 2]) if ci is None else ci
+        ci = r.choice([0, 1, 1, 2, 2, 3]) if ci is None else ci
         bi = r.randrange(3)
         kw, words = {}, []
         for n, k, c in U.spec[ci][0]:
             py = U.pyname(ci, n)
             if k == "n":
-                v = r.randint(-1000, 1000)
+                v = self.num_value()
                 kw[py] = v
                 words.append(f"{py}=n{v}")
             else:
@@ -182,8 +205,10 @@ class Case:
                 elif ch < 0.8:
                     kw[py] = None
                     words.append(f"{py}=none")
-        if ci == 0:
-            kw["arr"] = [float(r.randint(0, 9)) for _ in range(2)]
+        if ci in U.leaflike:
+            na = r.randint(1, 3)                      # one total size (4 items), different splits
+            kw["arr"] = [float(r.randint(0, 9)) for _ in range(na)]
+            kw["brr"] = [r.randint(10, 19) for _ in range(4 - na)]
         name = self.new_name()
         line = f"new {name} {ci} {bi} " + " ".join(words)
         try:
@@ -232,7 +257,7 @@ class Case:
         hn, obj, ci, n, k, c = self.pick()
         py = U.pyname(ci, n)
         if k == "n":
-            v = r.randint(-1000, 1000)
+            v = self.num_value()
             word, val = f"n{v}", v
         else:
             srcs = self.insts(c)
@@ -244,6 +269,7 @@ class Case:
             else:
                 return
         self.ops.append(f"set {hn} {py} {word}")
+        self.last_target = obj
         try:
             setattr(obj, py, val)
             self.exp.append("ok")
@@ -322,8 +348,9 @@ class Case:
                 out[n] = None
             elif depth < 4:
                 out[n] = self.values(v, depth + 1) if hasattr(v, "_xobject") else ("bare", self.xvalues(v, c))
-        if ci == 0:
+        if ci in self.U.leaflike:
             out["arr"] = [float(x) for x in obj.arr]
+            out["brr"] = [int(x) for x in obj.brr]
         return out
 
     def xvalues(self, x, ci, depth=0):
@@ -337,8 +364,9 @@ class Case:
                 out[n] = None
             elif depth < 4:
                 out[n] = self.xvalues(v, c, depth + 1)
-        if ci == 0:
+        if ci in self.U.leaflike:
             out["arr"] = [float(q) for q in x.arr.to_nparray()]
+            out["brr"] = [int(q) for q in x.brr.to_nparray()]
         return out
 
     def strip(self, v):
@@ -348,12 +376,66 @@ class Case:
             return {k: self.strip(x) for k, x in v.items()}
         return v
 
+    def reaches(self, root, obj, depth=0):
+        """is `obj` the current value of an attribute somewhere inside `root`?"""
+        ci = self.U.cls_index(root)
+        if ci is None or depth > 4:
+            return False
+        for n, k, c in self.U.spec[ci][0]:
+            if k == "n":
+                continue
+            try:
+                d = getattr(root, self.U.pyname(ci, n))
+            except Exception:
+                continue
+            if d is obj or (hasattr(d, "_xobject") and self.reaches(d, obj, depth + 1)):
+                return True
+        return False
+
+    def own_view_stale(self, obj):
+        """does the object's own view cache offsets of dynamic fields that are no longer those stored in the buffer?"""
+        x = obj._xobject
+        try:
+            fresh = type(x)._from_buffer(x._buffer, x._offset)
+            used = [f.index for f in x._fields if f.is_reference]     # the first dynamic field sits at a class-level offset
+            return any(int(fresh._offsets[k]) != int(x._offsets[k]) for k in used)
+        except Exception:
+            return False
+
+    def stale_parts(self, root, depth=0):
+        """dressed objects at or below `root` (current attribute values) whose own view is stale"""
+        out = [root] if self.own_view_stale(root) else []
+        ci = self.U.cls_index(root)
+        if ci is None or depth > 4:
+            return out
+        for n, k, c in self.U.spec[ci][0]:
+            if k == "n":
+                continue
+            try:
+                d = getattr(root, self.U.pyname(ci, n))
+            except Exception:
+                continue
+            if hasattr(d, "_xobject"):
+                out += self.stale_parts(d, depth + 1)
+        return out
+
     def check_mirror(self, after):
         """C18: attributes always reflect the underlying buffer data"""
         for hn, obj in list(self.handles.items()):
-            if not hasattr(obj, "_xobject"):
+            if not hasattr(obj, "_xobject") or hn in self.stale:
                 continue
             ci = self.U.cls_index(obj)
+            # O-30 (views cache the offsets of their dynamic fields): a part that was replaced as a whole THROUGH ANOTHER OBJECT of the
+            # same memory - an earlier handle of the nested part, or an earlier dressed object of its container - reads with the old
+            # offsets.  Everything reachable from the object the assignment went through must be right (not excused here).
+            sp = self.stale_parts(obj)
+            tgt = self.last_target
+            if sp and tgt is not None and not any(p is tgt or self.reaches(tgt, p) for p in sp):
+                self.fail("C18:stale-view-of-part-replaced-through-another-object",
+                          f"after `{after}`: a part of {hn} has been assigned, through another object of the same memory, a value of the same size "
+                          f"and another division; the view {hn} holds of it caches offsets { {k: int(v) for k, v in sp[0]._xobject._offsets.items()} } that are no longer those in the buffer")
+                self.tags["stale-view"] += 1
+                return False                 # the history ends here
             try:
                 a, b = self.strip(self.values(obj)), self.xvalues(obj._xobject, ci)
             except Exception as ex:
@@ -406,9 +488,9 @@ def canon_dict(d):
     if d is None:
         return "None"
     if isinstance(d, dict):
-        return "{" + ",".join(sorted(f"{k}:{canon_dict(v)}" for k, v in d.items() if k not in ("__class__", "arr"))) + "}"
+        return "{" + ",".join(sorted(f"{k}:{canon_dict(v)}" for k, v in d.items() if k not in ("__class__", "arr", "brr"))) + "}"
     if hasattr(d, "_fields") and hasattr(d, "_buffer"):        # a bare xobject stored for a reference
-        return "{" + ",".join(sorted(f"{f.name}:{canon_dict(getattr(d, f.name))}" for f in d._fields if f.name != "arr")) + "}"
+        return "{" + ",".join(sorted(f"{f.name}:{canon_dict(getattr(d, f.name))}" for f in d._fields if f.name not in ("arr", "brr"))) + "}"
     return str(int(d))
 
 
@@ -462,6 +544,7 @@ def run_history(r, fails, tags, n_ops):
     for _ in range(n_ops):
         k = r.choice(["new", "new", "get", "get", "set", "set", "set", "copy", "move", "py"])
         before = len(c.ops)
+        c.last_target = None
         getattr(c, "op_" + k)()
         if len(c.ops) > before:
             if not c.check_mirror(c.ops[-1]):
